@@ -44,7 +44,7 @@ Definition kcase (c : cfg) (name : Z) (a : list Z) : obs :=
   | 13, [esL; esU; n; m; o1; o2] =>                  (* multiply with operand and output element types of different sizes *)
     obs_res (mul_decision c esU (empty_of (ord_of o1) n 0) (empty_of (ord_of o2) 0 m)) (obs_shape_size (ord_of o1))
   | 10, [] => OStr autotraits_text                   (* Send / Sync status of the mutable vector iterators *)
-  | 11, [ty; opk] => OStr (scalar_forms_text opk)     (* the 18 scalar operator forms of one primitive type *)
+  | 11, ty :: opk :: _ => OStr (scalar_forms_text opk)     (* the 18 scalar operator forms of one primitive type *)
   | 12, [ty] => OStr scalar_neg_text                 (* -matrix, -&matrix *)
   | _, _ => OInvalid
   end.
